@@ -8,7 +8,7 @@ ASSUME = [
     "CBMC's bit-precise IEEE-754 float/double model, round-to-nearest-even (the emulator runs under the default rounding mode)",
     'SPEC: inputs and outputs flushed (denormal -> signed zero); any NaN operand or NaN spec result => NaN destination (payload/sign of NaN not compared); otherwise bit equality',
     'min/max: NaN operand => NaN result; numerically different => the smaller/larger; numerically equal (e.g. +0/-0) => either operand accepted',
-    'convfl/convdl: exact (truncation toward zero) for values strictly inside the int32 range; out-of-range inputs are NOT covered: (int)f is undefined in ISO C there and the emulator relies on the x86 cvttss2si result',
+    'convfl/convdl: truncation toward zero inside the int32 range; |x| >= 2^31, infinities and NaN saturate by sign (0x7fffffff / 0x80000000), for every input (the C rules were made UB-free by a fix: commit)',
     'native SSE/AVX path is not covered (C01 not applicable)',
     'symbolic array length capped at n <= 10^6',
 ]
